@@ -43,7 +43,7 @@ CHECKS = {
         design="7/C06", technique="Coq proof (inductive invariant over all schedules of an interleaving model) + threaded differential runs replayed through the certificate checker"),
     "C10": dict(
         text="PARTIAL (hash as parameter). Byte-level Coq models of the block envelope (33-byte header with its own checksum + payload checksum + type), the version file guarded by the checksum in `current` (F8 fix), the `current` file, the sfa table of contents / trailer and the blob frame, with theorems that EVERY single-byte change and EVERY truncation of a guarded region yields an error or the unchanged answer, for every checksum function that separates the two byte strings (the hypothesis is exactly 'the 128-bit xxh3 of the altered bytes differs'), plus explicit refutations for the regions the format leaves unguarded (blob frame header seqno / length fields seen only by the relocation scanner; F8 before the fix). Each run enumerates bit flips and truncations over every region of real table / blob / version / current files produced by generated histories, then performs open + all point reads + scans in an isolated process, for table and blob files followed by a major compaction and all reads again, and requires for every single answer an error or the original answer; a read-out that does not terminate is a violation.",
-        note=NOTE_TB + "Partial: collision-freeness of xxh3 on the compared pair is a hypothesis of each theorem (no hash can make it unconditional); the enumeration on real files samples positions per file (14 in the quick tier, 120 in the thorough tier; not every byte).",
+        note=NOTE_TB + "Partial: collision-freeness of xxh3 on the compared pair is a hypothesis of each theorem (no hash can make it unconditional); the enumeration on real files samples positions per file (14 in the quick tier, 40 in the thorough tier on twice as many trees; not every byte).",
         design="7/C10", technique="Coq proof (every byte of the guarded envelopes is covered by a checked checksum) + fault enumeration over real files with full read-out"),
     "C16": dict(
         text="PARTIAL (protocol level). Over the same file-system model: a failure of any syscall of a publication leaves memory at the old version and the directory in a state from which recovery yields the old or the new version and a retry is accepted (fail_atomic, publish_shape_ok), and the late-failure case (root fsync after the rename of `current` fails, then retry) is refuted with a witness (Ex2.late_failure_retry_refuted = known finding K3). Each run fails every file-system syscall of flush / compaction / drop_range / clear / ingestion one at a time with strace fault injection (EIO, ENOSPC) on real histories and requires: Err without panic, unchanged reads and dumps, successful retry (or, in other variants, a different publishing operation instead of the retry, or a reopen right after the failed call), recoverable directory.",
